@@ -5,7 +5,10 @@ mod bridge;
 mod explore;
 mod families;
 mod lockstep;
+mod poschecks;
 mod report;
+mod space;
+mod static_checks;
 
 use report::Ctx;
 
@@ -45,6 +48,14 @@ fn main() {
     let code = match id.as_str() {
         "C01" => lockstep::run(&ctx, true, false),
         "C02" => lockstep::run(&ctx, false, true),
+        "C05" => poschecks::run_c05(&ctx),
+        "C08" => poschecks::run_c08(&ctx),
+        "C09" => static_checks::run_c09(&ctx),
+        "C10" => poschecks::run_c10(&ctx),
+        "C11" => poschecks::run_c11(&ctx),
+        "C12" => poschecks::run_c12(&ctx),
+        "C13" => poschecks::run_c13(&ctx),
+        "C20" => static_checks::run_c20(&ctx),
         _ => {
             eprintln!("unknown property {}", id);
             2
